@@ -1,6 +1,7 @@
 package crossnode
 
 import (
+	"errors"
 	"io"
 )
 
@@ -210,4 +211,56 @@ func Harness_C10_sequential_streams() {
 	verif_Assert("C10.seq.second_tunnel_complete", len(gotB) == nb)
 	verif_Assert("C10.seq.second_tunnel_bytes", verif_BytesEq(gotB, db))
 	verif_Cover("C10.seq.done")
+}
+
+var errC10Open = errors.New("c10: no more bytes, the connection stays open")
+
+// Both directions of one tunnel over one connection, closed one after the other: end A sends its
+// bytes and closes; end B reads them up to end-of-stream, then sends its own bytes and closes; A,
+// which may still read after its own Close, gets B's bytes and then end-of-stream - it is not
+// left waiting (a hang is reported under the label "deadlock"; natively the watchdog).
+func Harness_C10_duplex_close() {
+	var id [16]byte
+	for i := range id {
+		id[i] = byte('k' + i)
+	}
+	na, nb := verif_IntRange(0, verif_Bound("payload")), verif_IntRange(0, verif_Bound("payload"))
+	da, db := verif_Bytes(na), verif_Bytes(nb)
+	inA, outA := &verifReader{Err: errC10Open}, &verifSink{}
+	inB, outB := &verifReader{Err: errC10Open}, &verifSink{}
+	ta, tb := verif_TCPPair(inA, outA, inB, outB)
+	a, b := NewFrameStream(&Conn{tcpConn: ta}, id), NewFrameStream(&Conn{tcpConn: tb}, id)
+	halfFirst := verif_Bool() // A half-closes (CloseWrite) or closes
+	if na > 0 {
+		n, err := a.Write(da)
+		verif_Assert("C10.dx.a_write", err == nil && n == na)
+	}
+	if halfFirst {
+		verif_Assert("C10.dx.a_closewrite", a.CloseWrite() == nil)
+	} else {
+		verif_Assert("C10.dx.a_close", a.Close() == nil)
+	}
+	inB.Data = outA.Buf
+	read := func(fs *FrameStream, want []byte, who string) {
+		var got []byte
+		p := make([]byte, 8)
+		for r := 0; r < 8; r++ {
+			n, err := fs.Read(p)
+			got = append(got, p[:n]...)
+			if err != nil {
+				verif_Assert("deadlock", err == io.EOF) // anything else: the reader is still waiting for an end that never comes
+				break
+			}
+		}
+		verif_Assert("C10.dx."+who+"_got_all", len(got) == len(want) && verif_BytesEq(got, want))
+	}
+	read(b, da, "b")
+	if nb > 0 {
+		n, err := b.Write(db)
+		verif_Assert("C10.dx.b_write", err == nil && n == nb)
+	}
+	verif_Assert("C10.dx.b_close", b.Close() == nil)
+	inA.Data = outB.Buf
+	read(a, db, "a")
+	verif_Cover("C10.dx.done")
 }
